@@ -113,6 +113,10 @@ def evalOp (st : DState) (m : Mode) (op : String) (a : List Tok) : Option (DStat
     let xo ← optOf x
     pure' (rshow (fun (s, y) => sp [toString s.index, toString s.zoh, showList s.combs,
       showList s.integrators, toString y]) (Cic.interpolate m w.toNat ⟨rate, idx, zoh, cs, is⟩ xo))
+  | "cic_clear", [.int rate, .int _idx, .int _zoh, .list cs, .list _is] =>
+    let s := (Cic.mk rate 0 0 cs cs).clear
+    pure' (sp [toString s.index, toString s.zoh, showList s.combs, showList s.integrators])
+  | "unwrap_phase", [.int wp, .int y] => pure' (toString (unwrapperPhase wp.toNat y))
   | "cic_gain", [.int w, .int rate, .int n] =>
     pure' (rshow toString ((Cic.new n.toNat rate).gain m w.toNat))
   | "cic_glog2", [.int rate, .int n] => pure' (toString (Cic.new n.toNat rate).gainLog2)
